@@ -35,6 +35,14 @@ Section C12.
     header_label ct = Some l -> py_strip l <> [] -> raw_label ct content = Some (py_strip l).
   Proof. exact (precedence_header meta_match prolog_match detect). Qed.
 
+  (* the header's label ends where a further media-type parameter begins: "text/html; charset=iso-8859-2; x=y" declares iso-8859-2 *)
+  Theorem C12_header_label_ends_at_parameter : forall ct l, header_label ct = Some l -> ~ In 59 l.
+  Proof. exact header_label_no_semicolon. Qed.
+
+  Theorem C12_header_label_example :
+    header_label (s2l "text/html; charset=iso-8859-2; foo=bar") = Some (s2l "iso-8859-2").
+  Proof. exact header_label_with_later_parameter. Qed.
+
   Theorem C12_precedence_meta : forall ct content l,
     header_label ct = None -> nonempty (meta_match content) = Some l -> py_strip l <> [] ->
     raw_label ct content = Some (py_strip l).
